@@ -257,6 +257,16 @@ pub fn check(s: &'static dyn Proto, c: &Case, st: &mut Stats, _k: &KnownFindings
         for f in &real_fins {
             cands.push(s.ser(Codec::Native, f));
         }
+        // finalizations computable without any secret
+        {
+            let alg = rm::oprf_hash(m.oprf);
+            let consts: [Vec<u8>; 3] = [vec![0u8; m.nh], vec![0xffu8; m.nh], Vec::new()];
+            for k in &consts {
+                for msg in &consts {
+                    cands.push(rm::hmac(alg, k, &[msg]));
+                }
+            }
+        }
         for cand in cands {
             let fin = s.de(Codec::Native, Ty::CredFin, &cand).map_err(|x| e("decode finalization", x))?;
             match s.server_login_finish(s.clone_obj(stt), &fin) {
@@ -286,7 +296,7 @@ pub const BUDGET: Budget = Budget {
 pub fn run(cfg: &RunCfg) -> (Outcome, EvidenceExtra) {
     let out = run_property(cfg, "C08", crate::suites::suites20(), BUDGET, |s| strategy(cfg, s), check);
     let ev = EvidenceExtra {
-        rule: "case = history of 3..8 (thorough 3..10) ops over one server and ONE shared server RNG: fake attempt (unregistered credential id, or a registered one served without file; fresh or repeated client request), real login (right/wrong password; fresh or repeated request). Oracle for every response: real length, decodes, evaluation element = reference oprf_key(seed, cred)*request (= what ServerLogin::start gives with a real record and ServerRegistration::start gives for the same blinded element); across attempts for the same (request, cred) the evaluation is equal and masking nonce, masked response, server nonce, server key share and MAC are pairwise different, for fake and real responses alike; the client's finish returns exactly InvalidLoginError for fake attempts = its error for a wrong password; every pending fake state rejects zero/0xFF/random finalizations and the finalizations of the interleaved real logins with InvalidLoginError; interleaved real logins succeed. evaluation = one response or relation; non-trivial = histories with >= 2 fake attempts for one (request, cred) and >= 1 successful real login; distinct by hash".into(),
+        rule: "case = history of 3..8 (thorough 3..10) ops over one server and ONE shared server RNG: fake attempt (unregistered credential id, or a registered one served without file; fresh or repeated client request), real login (right/wrong password; fresh or repeated request). Oracle for every response: real length, decodes, evaluation element = reference oprf_key(seed, cred)*request (= what ServerLogin::start gives with a real record and ServerRegistration::start gives for the same blinded element); across attempts for the same (request, cred) the evaluation is equal and masking nonce, masked response, server nonce, server key share and MAC are pairwise different, for fake and real responses alike; the client's finish returns exactly InvalidLoginError for fake attempts = its error for a wrong password; every pending fake state rejects zero/0xFF/random finalizations, publicly computable constants (HMAC of constant strings) and the finalizations of the interleaved real logins with InvalidLoginError; interleaved real logins succeed. evaluation = one response or relation; non-trivial = histories with >= 2 fake attempts for one (request, cred) and >= 1 successful real login; distinct by hash".into(),
         assumptions: vec!["'unpredictable' is decided as pairwise inequality (witnessing to fresh draws is C17's)".into()],
         exhaustive: None,
         extra: Default::default(),
